@@ -337,6 +337,9 @@ def run_case(case, ctx):
     sc_before, t_before = spike_clusters.copy(), times.copy()
     bin_size = b / rate
     window = 2 * h * bin_size if h else bin_size * 0.5
+    if h and (len(labels) + h + b) % 4 == 1 and rate in (1.0, 2.0, 4.0):
+        window = (2 * h + 1.5) * bin_size        # a window that is no whole number of bins: half-width floor(window / 2 / bin) = h bins all the same
+        assert int(.5 * window / bin_size) == h
 
     if case.get('windowed'):
         exp = ref.one_sided_windowed(samples, lab_pos, nC, b, h)
